@@ -7,8 +7,11 @@
    Order of effects per local base, as in the code: read, parse, depth test, canonicalize,
    visited test, recurse. Per remote base: depth test, visited test (raw URL), fetch, parse,
    recurse with no base path. Presets are not resolved further and consume no depth.
-   Every level: drop extends / extends_sha256 from the MERGED table, validate marker positions
-   of the merged value, strip first-position markers. *)
+   Every level: validate the marker positions of the member itself (fix D25,
+   fixes/D25-validate-member-before-merge.patch: before that patch only the merged value was
+   validated, after merge_arrays had consumed a leading marker), merge it over its resolved base,
+   drop extends / extends_sha256 from the MERGED table, validate marker positions of the merged
+   value, strip first-position markers. *)
 From Coq Require Import NArith ZArith List Bool.
 From SG Require Import Config.Toml Config.Merge.
 Import ListNotations.
@@ -130,7 +133,8 @@ Fixpoint resolve_val (fs : fsys) (fuel : nat) (v : tv) (base_path : option str)
               end
           in
           bind base (fun bp =>
-            bind (finish (merge (fst bp) v)) (fun r => Ok (r, snd bp)))
+            bind (check_valid v) (fun _ =>
+              bind (finish (merge (fst bp) v)) (fun r => Ok (r, snd bp))))
       end
   end.
 
